@@ -116,7 +116,7 @@ func Run(ctx *core.Ctx) {
 				}
 			}
 		}
-		TraceFamily(ctx, ctx.Pick(1500, 20000), ctx.Pick(3, 4))
+		TraceFamily(ctx, ctx.Pick(1500, 12000), ctx.Pick(3, 4))
 	}()
 	wg.Add(1)
 	go func() {
